@@ -1070,6 +1070,10 @@ event_reinit(struct event_base *base)
 		base->th_notify_fd[1] = -1;
 		event_debug_unassign(&base->th_notify);
 	}
+	/* A wakeup that was pending when we forked was written to the fd we
+	 * shared with the parent; the fd we are about to make is empty, so
+	 * nothing would ever clear the flag for us. */
+	base->is_notify_pending = 0;
 
 	/* Replace the original evsel. */
         base->evsel = evsel;
